@@ -47,6 +47,29 @@ def history_case(draw, tier):
             "reads": draw(st.lists(READ, min_size=1, max_size=4))}
 
 
+def body_twin_read(case, ctx):
+    """the canonical scenario of the property: a selection (of a selection) is created, world B looks at it, then ONE
+    operation of the full vocabulary is applied to it and observed - its outcome must not depend on the look"""
+    k = case["k"]
+    ctx.label("views:%d" % k, "read:" + str(case["read"]))
+    it, landed = run_program(case, "reads", ctx, reads=[[k, -1, case["read"]]])
+    ctx.nt(landed > 0)
+
+
+@st.composite
+def twin_read_case(draw, tier):
+    base = draw(c06.twin_case(tier))
+    k = sum(1 for s_ in base["steps"] if s_[0] == "index" and s_ is not base["steps"][-1])
+    k = 0
+    for s_ in base["steps"]:
+        if s_[0] == "index":
+            k += 1
+        else:
+            break
+    k = max(1, min(k, len(base["steps"]) - 1))
+    return {"lens": base["lens"], "steps": base["steps"], "k": k, "read": draw(st.sampled_from(READ_KINDS))}
+
+
 def body_probe_k1(case, ctx):
     """known finding K1: select; (read the selection in world B only); write the source; observe the selection"""
     ctx.label("probe-K1")
@@ -213,6 +236,9 @@ SUBCHECKS = [
              doc="program with vs. without inserted read-only operations (K1 region steered around)"),
     SubCheck("histories-coverage-guided", body_history, history_case, kind="atheris", quick=0, thorough=1200000, shards_thorough=16,
              doc="thorough only: atheris/libFuzzer drives the history strategy through Hypothesis' fuzz_one_input (16 campaigns)"),
+    SubCheck("twin-with-read", body_twin_read, twin_read_case, quick=8000, thorough=500000, shards_quick=5,
+             doc="1-2 compounding selections; world B reads the deepest pending view; then one operation of the 40-operation "
+                 "vocabulary on that view plus observers - same outcome in both worlds"),
     SubCheck("single-read-preserves-content", body_single_read, single_read_case, quick=14000, thorough=800000, shards_quick=8,
              doc="one array of any dtype / shape (uniform row lengths boosted), one of ~90 read-only operations, then content and a "
                  "follow-up broadcast are compared with the generating rows / numpy"),
